@@ -14,6 +14,7 @@ func fnWatch(ctx *cmdContext, args map[string]any) (output respValue, err error)
 	}
 
 	ids := ctx.dsc.getIds(keyStrs...)
+	ctx.cs.mu.Lock()
 	for idx, id := range ids {
 		// a key that is already watched keeps its original snapshot
 		wk := watchKey{ds: ctx.dsc.ds, key: keyStrs[idx]}
@@ -21,6 +22,7 @@ func fnWatch(ctx *cmdContext, args map[string]any) (output respValue, err error)
 			ctx.cs.watches[wk] = id
 		}
 	}
+	ctx.cs.mu.Unlock()
 
 	output.data = rstrOK
 	return
@@ -28,7 +30,7 @@ func fnWatch(ctx *cmdContext, args map[string]any) (output respValue, err error)
 
 func fnUnwatch(ctx *cmdContext, args map[string]any) (output respValue, err error) {
 	// clear out watch map
-	ctx.cs.watches = map[watchKey]uint64{}
+	ctx.cs.clearWatches()
 	output.data = rstrOK
 	return
 }
@@ -40,18 +42,53 @@ func fnDiscard(ctx *cmdContext, args map[string]any) (output respValue, err erro
 	}
 
 	// clear out watch map and discard multi command queue
-	ctx.cs.watches = map[watchKey]uint64{}
+	ctx.cs.clearWatches()
 	ctx.cs.cmdQueue = nil
 	ctx.cs.cmdQueueAborted = false
 	output.data = rstrOK
 	return
 }
 
-func isAbortedExecUnlocked(cs *clientState) bool {
+// the watch map is read by other connections (CLIENT LIST), so it is copied under the client's lock
+func (cs *clientState) clearWatches() {
+	cs.mu.Lock()
+	defer cs.mu.Unlock()
+	cs.watches = map[watchKey]uint64{}
+}
+
+func (cs *clientState) copyWatches() map[watchKey]uint64 {
+	cs.mu.Lock()
+	defer cs.mu.Unlock()
+	watches := make(map[watchKey]uint64, len(cs.watches))
 	for watch, id := range cs.watches {
+		watches[watch] = id
+	}
+	return watches
+}
+
+// checks the watches on the data store that the caller holds exclusively
+func isAbortedExecUnlocked(cs *clientState, owned *dataStore) bool {
+	for watch, id := range cs.copyWatches() {
 		// caller holds exclusive lock, so go directly to the data store for this check
-		if watch.ds.hasChangedUnlocked(watch.key, id) {
+		if watch.ds == owned && watch.ds.hasChangedUnlocked(watch.key, id) {
 			return true
+		}
+	}
+	return false
+}
+
+// checks the watches on the other data stores, each under its own lock (never while
+// holding a second data store lock, which could deadlock with a transaction over there)
+func isAbortedExecElsewhere(cs *clientState, owned *dataStore) bool {
+	for watch, id := range cs.copyWatches() {
+		if watch.ds != owned {
+			dsc := watch.ds.newDataStoreCommand()
+			dsc.lock()
+			changed := watch.ds.hasChangedUnlocked(watch.key, id)
+			dsc.unlock()
+			if changed {
+				return true
+			}
 		}
 	}
 	return false
@@ -65,12 +102,15 @@ func fnExec(ctx *cmdContext, args map[string]any) (output respValue, err error) 
 
 	if ctx.cs.cmdQueueAborted {
 		// a command was rejected while queueing: nothing is executed
-		ctx.cs.watches = map[watchKey]uint64{}
+		ctx.cs.clearWatches()
 		ctx.cs.cmdQueue = nil
 		ctx.cs.cmdQueueAborted = false
 		output.data = respErrorString("EXECABORT Transaction discarded because of previous errors.")
 		return
 	}
+
+	// watched keys of other databases are checked before this database is locked
+	changedElsewhere := isAbortedExecElsewhere(ctx.cs, ctx.dsc.ds)
 
 	// take complete ownership of the data store
 	ctx.dsc.acquireExclusive()
@@ -85,9 +125,9 @@ func fnExec(ctx *cmdContext, args map[string]any) (output respValue, err error) 
 	defer func() { ctx.cs.execDsc = nil }()
 
 	// check the watches; if anything has changed, return null
-	if isAbortedExecUnlocked(ctx.cs) {
+	if changedElsewhere || isAbortedExecUnlocked(ctx.cs, ctx.dsc.ds) {
 		// the transaction is over: back to normal mode, nothing watched
-		ctx.cs.watches = map[watchKey]uint64{}
+		ctx.cs.clearWatches()
 		ctx.cs.cmdQueue = nil
 		return
 	}
@@ -109,7 +149,7 @@ func fnExec(ctx *cmdContext, args map[string]any) (output respValue, err error) 
 	}
 
 	// reset multi state and return the results
-	ctx.cs.watches = map[watchKey]uint64{}
+	ctx.cs.clearWatches()
 	ctx.cs.cmdQueue = nil
 	output.data = nativeArrayToResp(results)
 	return
